@@ -333,6 +333,12 @@ class TranslatorC(Translator):
                 return out
 
             elif expr.op in ['-']:
+                if expr.size > self.NATIVE_INT_MAX_SIZE:
+                    out = "bignum_sub(%s, %s)" % (
+                        self.from_expr(expr.args[0]),
+                        self.from_expr(expr.args[1])
+                    )
+                    return "bignum_mask(%s, %d)" % (out, expr.size)
                 return '(((%s&%s) %s (%s&%s))&%s)' % (
                     self.from_expr(expr.args[0]),
                     self._size2mask(expr.args[0].size),
